@@ -28,6 +28,19 @@ def run(tier, seed, pid='C01', db='zonedbx'):
     }
     return rep.finish(exhaustive=(tier == 'thorough'), extra=extra)
 
-def replay(path):
-    print(open(path).read())
-    return 0
+def replay(path, pid='C01', db='zonedbx'):
+    """Re-execute the recorded case: the whole zone of the first recorded case is swept again (quick grid) on the current tree."""
+    import json
+    rec = json.load(open(path))
+    case = (rec.get('cases') or [{}])[0] or {}
+    zone = case.get('zone')
+    print(json.dumps(rec, indent=1)[:3000])
+    if not zone:
+        return 0
+    opath, zones, links, tabs, text = db_oracle(db)
+    exe = build_driver('zone_sweep.cpp', 'fast')
+    res = run_shards(exe, ['--db=' + db, '--oracle=' + opath, '--pid=' + pid.lower(), '--zone=' + zone], nshards=2, tier='quick', seed=0, timeout=1800)
+    for k, d in res.violations[:10]:
+        print('REPRODUCED', k, json.dumps(d))
+    print('replay of zone %s: %d violation(s) on the current tree' % (zone, len(res.violations)))
+    return 1 if res.violations or res.crashes else 0
